@@ -388,3 +388,124 @@ def _name_arm(vp: H.VPat, body: Any, wrap_defs, fmt_param, node) -> NameArm:
     if isinstance(body, dict) and body.get("k") == "mcall" and not body["args"] and H.is_str_lit(body["recv"]) and body["name"] in ("to_string", "to_owned", "into"):
         return NameArm(vp.variant, "lit", lit=H.lit_value(body["recv"], "str"), vpat=vp, callee=body.get("def"), node=node)
     return NameArm(vp.variant, "other", vpat=vp, node=node)
+
+
+# ------------------------------------------------------------------------------------------------
+# generic `match self { variant patterns => body }`
+# ------------------------------------------------------------------------------------------------
+
+@dataclass
+class VMatch:
+    arms: List[Tuple[H.VPat, Any, Any]]      # (variant pattern, body, arm node)
+    wild: Optional[Any]                       # body of the wildcard arm, if any
+    scrut_ok: bool
+    stmts: List[dict]
+
+
+def variant_match(fn: dict, self_param: int = 0, allow_stmts: bool = False) -> VMatch:
+    stmts, tail = H.tail_of_body(fn["body"]["tree"])
+    if stmts and not allow_stmts:
+        raise Unrecognised("unexpected statements in " + fn["name"], stmts)
+    m = H.match_on(tail)
+    if m is None:
+        raise Unrecognised("%s is not a match: %s" % (fn["name"], H.brief(tail)), tail)
+    arms = []
+    wild = None
+    for arm in m["arms"]:
+        if arm.get("guard") is not None:
+            raise Unrecognised("guard in " + fn["name"], arm)
+        if H.is_wild(arm["pat"]):
+            wild = arm["body"]
+            break
+        for alt in H.pat_alternatives(arm["pat"]):
+            vp = H.variant_pat(alt)
+            if vp is None:
+                raise Unrecognised("arm pattern of %s is not a variant: %s" % (fn["name"], H.render_pat(alt)), arm)
+            arms.append((vp, arm["body"], arm))
+    return VMatch(arms, wild, H.is_self_scrutinee(m["scrut"], self_param), stmts)
+
+
+def first_arm_for(vm: VMatch, variant: str):
+    for vp, body, node in vm.arms:
+        if vp.variant == variant:
+            return ("arm", body, node)
+    if vm.wild is not None:
+        return ("wild", vm.wild, None)
+    return None
+
+
+def option_str(e: Any):
+    """Some("lit") -> ('some', lit); None -> ('none',); else ('other', text)."""
+    e = H.strip(e)
+    if isinstance(e, dict) and e.get("k") == "path" and e.get("def") == NONE:
+        return ("none",)
+    co = H.call_of(e)
+    if co and co[0].get("def") == SOME and len(co[1]) == 1:
+        a = H.strip(co[1][0])
+        if isinstance(a, dict) and a.get("k") == "lit":
+            if a.get("ty") == "int":
+                v = int(a["v"])
+                return ("some", -v if a.get("neg") else v, "int")
+            return ("some", a.get("v"), a.get("ty"))
+        return ("other", H.brief(e))
+    return ("other", H.brief(e))
+
+
+def static_str_array(e: Any):
+    """`{ static ARR: [&str; n] = [..]; &ARR }` or `&[..]` -> list of literals."""
+    e0 = e
+    e = H.strip(e)
+    if isinstance(e, dict) and e.get("k") == "block":
+        statics = {}
+        for s in e["stmts"]:
+            if s.get("k") == "item" and s.get("item") == "static":
+                body = H.strip(s["body"]["tree"])
+                statics[s["name"]] = body
+            else:
+                return None
+        t = H.strip(e.get("tail"))
+        if isinstance(t, dict) and t.get("k") == "ref":
+            r = H.strip(t["e"])
+            if isinstance(r, dict) and r.get("k") == "path" and r.get("dk", "").startswith("Static"):
+                nm = (r.get("written") or "").split("::")[-1]
+                arr = statics.get(nm)
+                if isinstance(arr, dict) and arr.get("k") == "array":
+                    vals = [H.lit_value(x, "str") for x in arr["elems"]]
+                    if all(v is not None for v in vals):
+                        return vals
+        return None
+    if isinstance(e, dict) and e.get("k") == "ref":
+        a = H.strip(e["e"])
+        if isinstance(a, dict) and a.get("k") == "array":
+            vals = [H.lit_value(x, "str") for x in a["elems"]]
+            if all(v is not None for v in vals):
+                return vals
+    return None
+
+
+def const_str_slice(imp: dict, name: str) -> List[str]:
+    c = assoc_of(imp, name, "const")
+    if c is None or "body" not in c:
+        raise Unrecognised("impl lacks const " + name)
+    t = H.strip(c["body"]["tree"])
+    if isinstance(t, dict) and t.get("k") == "ref":
+        a = H.strip(t["e"])
+        if isinstance(a, dict) and a.get("k") == "array":
+            vals = [H.lit_value(x, "str") for x in a["elems"]]
+            if all(v is not None for v in vals):
+                return vals
+    raise Unrecognised("const %s is not a slice of string literals: %s" % (name, H.brief(t)), t)
+
+
+def const_ctor_slice(imp: dict, name: str) -> List[H.Ctor]:
+    c = assoc_of(imp, name, "const")
+    if c is None or "body" not in c:
+        raise Unrecognised("impl lacks const " + name)
+    t = H.strip(c["body"]["tree"])
+    if isinstance(t, dict) and t.get("k") == "ref":
+        a = H.strip(t["e"])
+        if isinstance(a, dict) and a.get("k") == "array":
+            cs = [H.ctor_of(x) for x in a["elems"]]
+            if all(x is not None for x in cs):
+                return cs
+    raise Unrecognised("const %s is not a slice of unit constructors: %s" % (name, H.brief(t)), t)
